@@ -494,6 +494,13 @@ func TestGrid(t *testing.T) {
 		}
 	}
 	vk.CountConstructed(evals, nontriv, "grid-firstdiff")
+	vk.MarkExhaustive("all 1-byte strings x widths x indexes; all pairs of 1-byte strings x widths x all windows from in [0,words+1], end in [-1,words+1]")
+}
+
+// TestLast runs at the very end of the process: huge inputs (the maximum bitmap / string) and the regression cases of that size come last, so that
+// what they leave behind in the library cannot mask anything the ordinary cases would have met.
+func TestLast(t *testing.T) {
+	vk.SetPhase("last")
 	// the maximum string: 2^28 bytes = 2^31 bits
 	for _, n := range widths {
 		for _, back := range []int{0, 1, 9, 100} {
@@ -502,5 +509,5 @@ func TestGrid(t *testing.T) {
 			}
 		}
 	}
-	vk.MarkExhaustive("all 1-byte strings x widths x indexes; all pairs of 1-byte strings x widths x all windows from in [0,words+1], end in [-1,words+1]")
+	checker.RegressLast(t)
 }
